@@ -161,6 +161,10 @@ func runC05(c C05Case) (res c05result) {
 			case "close":
 				time.Sleep(time.Duration(200+ai*150) * time.Microsecond)
 				at.Close()
+			case "barrier-close":
+				// the valid session is processed to its end (PINGREQ round trip) before the cut
+				at.BarrierTimeout(2 * time.Second)
+				at.Close()
 			case "stall-close":
 				time.Sleep(3 * time.Millisecond)
 				at.Close()
@@ -491,7 +495,7 @@ func genAttacker(t *rapid.T, c *C05Case, ai int) Attacker {
 	}
 	a.Origin = "valid session"
 	limit := c.BufSize
-	switch m := rapid.IntRange(0, 14).Draw(t, "mutation"); m {
+	switch m := rapid.IntRange(0, 17).Draw(t, "mutation"); m {
 	case 14: // pre-CONNECT remaining length that never terminates (continuation bit in every byte)
 		a.Kind = "connect-unterminated-length"
 		k := rapid.IntRange(1, 8).Draw(t, "ncont")
@@ -583,6 +587,9 @@ func genAttacker(t *rapid.T, c *C05Case, ai int) Attacker {
 	if a.End == "idle" && rapid.IntRange(0, 3).Draw(t, "keep-idle") != 0 {
 		a.End = "close" // idle ends cost up to 1 s: keep them rare
 	}
+	if a.Kind == "valid-sudden-end" && a.End == "close" && rapid.Bool().Draw(t, "barrier-close") {
+		a.End = "barrier-close"
+	}
 	return a
 }
 
@@ -601,9 +608,52 @@ func genC05Jam(t *rapid.T) C05Case {
 	return c
 }
 
+// genC05Legal: a connection that keeps to the protocol but uses its rarely seen corners - QoS 2
+// exchanges whose PUBREL is repeated (as after a lost PUBCOMP), identifiers reused at once,
+// acknowledgements that refer to nothing - processed to the end before the connection is cut.
+// Whatever it does may not show at anybody else's connection.
+func genC05Legal(t *rapid.T) C05Case {
+	c := C05Case{BufSize: 16384, WitnessQoS: byte(rapid.IntRange(0, 1).Draw(t, "wq")), NMsgs: rapid.IntRange(12, 40).Draw(t, "nmsgs")}
+	a := Attacker{StartAt: rapid.IntRange(0, c.NMsgs-2).Draw(t, "startat"), End: rapid.SampledFrom([]string{"barrier-close", "barrier-close", "close"}).Draw(t, "end"), Kind: "valid-unusual-sequences", Origin: "valid session with repeated PUBRELs, reused identifiers and stray acknowledgements"}
+	pk := [][]byte{
+		codec.Encode(wire.ConnectPacket("legal", rapid.Bool().Draw(t, "clean"), 60)),
+		codec.Encode(&codec.Packet{Type: codec.SUBSCRIBE, PacketID: 1, Topics: [][]byte{[]byte("att/#")}, QoSs: []byte{byte(rapid.IntRange(0, 2).Draw(t, "sq"))}}),
+	}
+	for i, n := 0, rapid.IntRange(2, 6).Draw(t, "npubs"); i < n; i++ {
+		id := uint16(rapid.SampledFrom([]int{7, 7, 8, 100 + i}).Draw(t, "id"))
+		q := byte(rapid.SampledFrom([]int{2, 2, 1, 0}).Draw(t, "pq"))
+		pl := bytes.Repeat([]byte{'a'}, rapid.SampledFrom([]int{20, 100, 3000}).Draw(t, "psize"))
+		copy(pl, fmt.Sprintf("ATT0.%d:", i))
+		pp := &codec.Packet{Type: codec.PUBLISH, QoS: q, Topic: []byte("att/t"), Payload: pl}
+		if q > 0 {
+			pp.PacketID = id
+		}
+		pk = append(pk, codec.Encode(pp))
+		if q == 2 {
+			for r, m := 0, rapid.IntRange(1, 3).Draw(t, "rels"); r < m; r++ {
+				pk = append(pk, codec.Encode(&codec.Packet{Type: codec.PUBREL, PacketID: id}))
+			}
+		}
+		switch rapid.IntRange(0, 5).Draw(t, "stray") {
+		case 0:
+			pk = append(pk, codec.Encode(&codec.Packet{Type: codec.PUBACK, PacketID: id}))
+		case 1:
+			pk = append(pk, codec.Encode(&codec.Packet{Type: codec.PUBCOMP, PacketID: id}))
+		case 2:
+			pk = append(pk, []byte{0xC0, 0})
+		}
+	}
+	a.Stream = bytes.Join(pk, nil)
+	c.Attackers = []Attacker{a}
+	c.Transport = genTransport(t)
+	return c
+}
+
 func genC05(t *rapid.T) C05Case {
 	if j := rapid.IntRange(0, 9).Draw(t, "jam"); j == 0 {
 		return genC05Jam(t)
+	} else if j == 2 {
+		return genC05Legal(t)
 	} else if j == 1 {
 		c := genC05Jam(t)
 		c.WitnessPad = 0
